@@ -38,7 +38,8 @@ CHECKS = {
         "thorough": cfgs(["dflt"], args=["--all32"]) + cfgs(["cmp", "rdxfmt", "cmprdxfmt"]),
         "rule": "complete enumeration of float value families BIN (every binade x structured mantissa patterns), SD (floats nearest "
                 "to every <= d-digit decimal at every exponent, and both neighbours), BD (binade borders, extremes), INT (small integers "
-                "and neighbours), ZERO; thorough adds ALL32 (every positive finite f32). Output parsed by the reference grammar and judged "
+                "and neighbours), ENDPT (floats one of whose interval endpoints (2m+-1)*2^(e-1) equals j*2^t*10^k with 5^k dividing 2m+-1: the "
+                "endpoint-inclusion cases of the shortest-digit search), ZERO; thorough adds ALL32 (every positive finite f32). Output parsed by the reference grammar and judged "
                 "exactly: round trip, shortest, closest (non-compact) / <= 17,9 digits (compact); non-trivial = outputs with >= 16 digits",
         "bounds": {
             "quick": "BIN level 2 (~330 mantissa patterns x every binade), SD d=3, INT < 2^14; f32 and f64; 1-in-64 negated",
@@ -141,9 +142,10 @@ CHECKS = {
     "C10": {
         "bin": "c10",
         "crash_is_violation": True,
-        "quick": cfgs(["dflt", "rdxfmt"], features="catalogue") + cfgs(["rdxfmt"], profile="reldbg", features="catalogue"),
-        "thorough": cfgs(["dflt", "fmt", "rdxfmt", "cmprdxfmt"], features="catalogue") + cfgs(["dflt", "rdxfmt", "cmprdxfmt"], profile="reldbg", features="catalogue"),
-        "rule": "every raw byte string up to length 2 (+ every third byte after a byte that can start a number; thorough: all 256^3) through the default "
+        "quick": cfgs(["dflt", "rdxfmt", "cmprdxfmt"], features="catalogue") + cfgs(["rdxfmt"], profile="reldbg", features="catalogue"),
+        "thorough": cfgs(["dflt", "fmt", "rdxfmt", "cmprdxfmt", "cmp"], features="catalogue") + cfgs(["dflt", "rdxfmt", "cmprdxfmt"], profile="reldbg", features="catalogue"),
+        "rule": "MAG: 9 mantissa shapes x every exponent in a window wider than the float range (+-(1250/log2(base)+40)) and at the i32/i64/u64 limits, for the "
+                "STANDARD and radix formats; every raw byte string up to length 2 (+ every third byte after a byte that can start a number; thorough: all 256^3) through the default "
                 "API of all 14 types; every string of <= L tokens over a per-format alphabet {+,-,0,1,max digit,point,exponent char in both cases,"
                 "separator,prefix,suffix,n,i,comma} and long digit strings (3..41 and 400..1200 digits, one or two separators at every position) through "
                 "parse and parse_partial of f64/f32/u8/i32/i64/u128 for every catalogued format (STANDARD, each flag alone, digit/sign/special/leading-zero/"
@@ -155,8 +157,8 @@ CHECKS = {
     },
     "C11": {
         "bin": "c10",
-        "quick": cfgs(["dflt", "rdxfmt"], args=["--c11"], features="catalogue"),
-        "thorough": cfgs(["dflt", "fmt", "rdxfmt", "cmprdxfmt"], args=["--c11"], features="catalogue"),
+        "quick": cfgs(["dflt", "rdxfmt", "cmprdxfmt"], args=["--c11"], features="catalogue"),
+        "thorough": cfgs(["dflt", "fmt", "rdxfmt", "cmprdxfmt", "cmp"], args=["--c11"], features="catalogue"),
         "rule": "same enumeration as C10; relational oracle, no reference model: parse(s) = Ok(v) <=> parse_partial(s) = Ok((v, len)); and "
                 "parse_partial(s) = Ok((v, n)) with 0 < n < len => parse(s[..n]) = Ok(v); floats by bits, NaN by class; STANDARD options and custom "
                 "punctuation (',' decimal point, '^' exponent); non-trivial = inputs accepted by the complete parser",
@@ -227,8 +229,8 @@ CHECKS = {
     "C09": {
         "bin": "c09",
         "crash_is_violation": True,
-        "quick": cfgs(["dflt", "rdxfmt"]),
-        "thorough": cfgs(["dflt", "cmp", "rdxfmt", "cmprdxfmt"]) + cfgs(["rdxfmt"], profile="reldbg"),
+        "quick": cfgs(["dflt", "fmt", "rdxfmt"]),
+        "thorough": cfgs(["dflt", "cmp", "fmt", "rdxfmt", "cmprdxfmt"]) + cfgs(["fmt", "rdxfmt"], profile="reldbg"),
         "rule": "float values (every 32nd / 4th binade x 3 mantissa patterns, extremes, ~25 decimal landmarks with carries and long expansions, zero, every "
                 "5th negated) x formats (STANDARD, 6 decimal writer-flag formats, 7 radix writer-flag formats, every radix of the feature set, mixed-base "
                 "formats) x the write-option product OPT_w (max/min significant digits, Round/Truncate, trim, positive and negative exponent breaks up to "
@@ -244,7 +246,7 @@ CHECKS = {
         "bin": "c17",
         "quick": cfgs(["dflt", "rdxfmt"], features="facade"),
         "thorough": cfgs(["dflt", "cmp", "rdx", "rdxfmt", "cmprdxfmt"], features="facade"),
-        "rule": "float values (binade borders, extremes, specials, decimal landmarks, both signs) x formats {STANDARD, radix 2/16/36/3, required signs + "
+        "rule": "OPTB: every byte value 0..255 in every byte-valued write-float option (decimal point, exponent character, each position of 1..3-byte NaN and infinity strings); whatever build() accepts is used to write NaN, +-inf and finite values: all output bytes < 0x80 and facade = core; float values (binade borders, extremes, specials, decimal landmarks, both signs) x formats {STANDARD, radix 2/16/36/3, required signs + "
                 "exponent notation, no exponent notation} x write options (OPT_w level 0, 50-letter special strings, and every ordered pair of valid "
                 "punctuation bytes - printable ASCII, not a digit of the radix, not a sign - as decimal point and exponent): lexical::to_string* bytes == "
                 "lexical_core::write* bytes, no byte >= 0x80, a panic on one side iff on the other; every string of <= L tokens over {+,-,0,1,.,exponent,x,"
